@@ -192,12 +192,6 @@ theorem Sim.endIter_sim {s t : MState} (h : Sim s t) (r : String) : Sim (endIter
   | none => exact h.setFault
   | some i => simp only; rw [← h.iteration]; exact h.setIteration _
 
-theorem Sim.matchRanks_sim {s t : MState} (h : Sim s t) (a b : String) : Sim (matchRanks s a b) (matchRanks t a b) := by
-  unfold matchRanks
-  simp only [← h.allMatches]
-  exact ⟨h.iteration, h.point, h.loopOrder, rfl, h.rankMatches, h.declared, h.consumed, h.fault,
-    h.restarted, h.slots, h.cont⟩
-
 theorem Sim.consumeTrace_sim {s t : MState} (h : Sim s t) (k : Key) : Sim (consumeTrace s k) (consumeTrace t k) := by
   unfold consumeTrace
   have hk := h.slots k
@@ -351,6 +345,40 @@ theorem Sim.registerRank_sim {s t : MState} (h : Sim s t) (r : String) : Sim (re
     · apply Sim.startRank_sim
       exact ⟨by simp [h.iteration], by simp [h.point], by simp [h.loopOrder], rfl, h.rankMatches,
         h.declared, h.consumed, h.fault, h.restarted, h.slots, h.cont⟩
+
+theorem Sim.matchApplySrc_sim {s t : MState} (h : Sim s t) (r src : String) :
+    Sim (matchApplySrc r s src) (matchApplySrc r t src) := by
+  unfold matchApplySrc
+  have e1 : (src ∈ t.loopOrder) = (src ∈ s.loopOrder) := by rw [h.loopOrder]
+  have e2 : (aget t.rankMatches src).isSome = (aget s.rankMatches src).isSome := by rw [h.rankMatches]
+  by_cases hc : (decide (src ∈ s.loopOrder) || (aget s.rankMatches src).isSome) = true
+  · have hc' : (decide (src ∈ t.loopOrder) || (aget t.rankMatches src).isSome) = true := by
+      simpa [e1, e2] using hc
+    simp only [hc, hc', if_true]; exact h
+  · have hc' : ¬ (decide (src ∈ t.loopOrder) || (aget t.rankMatches src).isSome) = true := by
+      simpa [e1, e2] using hc
+    simp only [hc, hc', if_false]
+    apply Sim.startRank_sim
+    exact ⟨h.iteration, h.point, h.loopOrder, h.allMatches, by simp [h.rankMatches], h.declared,
+      h.consumed, h.fault, h.restarted, h.slots, h.cont⟩
+
+theorem Sim.matchApplyRank_sim {s t : MState} (h : Sim s t) (all : List String) (r : String) :
+    Sim (matchApplyRank all s r) (matchApplyRank all t r) := by
+  unfold matchApplyRank
+  by_cases hm : r ∈ s.loopOrder
+  · have hm' : r ∈ t.loopOrder := h.loopOrder ▸ hm
+    simp only [hm, hm', if_true]
+    exact Sim.foldl_sim _ _ (fun s t a h => h.matchApplySrc_sim r a) _ s t h
+  · have hm' : ¬ r ∈ t.loopOrder := h.loopOrder ▸ hm
+    simp only [hm, hm', if_false]; exact h
+
+theorem Sim.matchRanks_sim {s t : MState} (h : Sim s t) (a b : String) : Sim (matchRanks s a b) (matchRanks t a b) := by
+  unfold matchRanks
+  have e : matchClosure t a b = matchClosure s a b := by simp [matchClosure, h.allMatches]
+  simp only [e]
+  apply Sim.foldl_sim _ _ (fun s t r h => h.matchApplyRank_sim _ r)
+  exact ⟨h.iteration, h.point, h.loopOrder, by simp [h.allMatches], h.rankMatches, h.declared, h.consumed,
+    h.fault, h.restarted, h.slots, h.cont⟩
 
 theorem Sim.endCollect_sim {s t : MState} (h : Sim s t) : Sim (endCollect s) (endCollect t) := by
   unfold endCollect
@@ -547,9 +575,6 @@ theorem MF.incIter_mf {s : MState} (h : MF s) (r : String) : MF (incIter s r) :=
 theorem MF.endIter_mf {s : MState} (h : MF s) (r : String) : MF (endIter s r) := by
   unfold endIter; split <;> exact h.of_same rfl rfl rfl rfl
 
-theorem MF.matchRanks_mf {s : MState} (h : MF s) (a b : String) : MF (matchRanks s a b) := by
-  unfold matchRanks; exact h.of_same rfl rfl rfl rfl
-
 theorem MF.consumeTrace_mf {s : MState} (h : MF s) (k : Key) : MF (consumeTrace s k) := by
   unfold consumeTrace
   cases hs : s.slots k with
@@ -660,6 +685,22 @@ theorem MF.registerRank_mf {s : MState} (h : MF s) (r : String) : MF (registerRa
       · exact h'
     · refine MF.startRank_mf ?_ _
       exact h.of_same rfl rfl rfl rfl
+
+theorem MF.matchRanks_mf {s : MState} (h : MF s) (a b : String) : MF (matchRanks s a b) := by
+  unfold matchRanks
+  apply MF.foldl_mf
+  · intro s' r h'
+    unfold matchApplyRank
+    split
+    · apply MF.foldl_mf _ _ _ _ h'
+      intro s'' src h''
+      unfold matchApplySrc
+      split
+      · exact h''
+      · refine MF.startRank_mf ?_ _
+        exact h''.of_same rfl rfl rfl rfl
+    · exact h'
+  · exact h.of_same rfl rfl rfl rfl
 
 theorem MF.step_mf {s : MState} (h : MF s) (e : Ev) : MF (step s e) := by
   cases e with
@@ -827,10 +868,10 @@ theorem endCollect_content (s : MState) (k : Key) :
     obtain ⟨b1, b2⟩ := ih (ecStep s a)
     exact ⟨b1.trans a1, b2.trans a2⟩
 
-/-- `incIter`, `endIter`, `matchRanks`, `consumeTrace`, `endCollect` add no line to any trace
+/-- `incIter`, `endIter`, `consumeTrace`, `endCollect` add no line to any trace
     (consumeTrace only moves memory lines to its caller) -/
 theorem step_keeps_lines (s : MState) (e : Ev) (k : Key)
-    (he : match e with | .inc _ => True | .endI _ => True | .matchR _ _ => True | .consume _ _ => True
+    (he : match e with | .inc _ => True | .endI _ => True | .consume _ _ => True
                        | .endCollect => True | _ => False) :
     content (step s e) k = content s k ∧ memAll (step s e) k = memAll s k := by
   cases e with
@@ -839,7 +880,7 @@ theorem step_keeps_lines (s : MState) (e : Ev) (k : Key)
   | use r c pos ty ovr => exact he.elim
   | inc r => simp only [step, incIter]; split <;> exact ⟨rfl, rfl⟩
   | endI r => simp only [step, endIter]; split <;> exact ⟨rfl, rfl⟩
-  | matchR a b => exact ⟨rfl, rfl⟩
+  | matchR a b => exact he.elim
   | endCollect => exact endCollect_content s k
   | consume r ty =>
     simp only [step, consumeTrace]
